@@ -213,20 +213,26 @@ def classify(ctx, u, f, s, keys, fold):
                 _step_on_every_iteration(ctx, f, s, ptr_steps)
             if every:
                 return ('cursor', '%s advances every iteration, exit on the character read' % pk.split('#')[0], None)
-    # D1: for(;;) with equality break on a counter stepped in the header
-    if lp['cond'] is None and lp.get('inc') is not None and ws_inc:
-        ik = ws_inc[0][0]
-        for x in walk(body) if body is not None else ():
-            if x.get('kind') == 'BreakStmt':
-                F = ctx.facts(f)
-                fs = F.facts_at_ast(x) or frozenset()
-                for (op, a, b) in fs:
-                    if op == '==' and ik in (a, b):
-                        lim = b if a == ik else a
-                        lim_w = [wk for (wk, y) in ws if wk == lim]
-                        others = [wk for (wk, y) in ws_body if wk == ik]
-                        if not lim_w and not others and ws_inc[0][1].get('opcode') == '++':
-                            return ('counted-break', '%s++ until == %s' % (ik.split('.')[-1], lim.split('#')[0]), None)
+    # D1: for(;;) / while(true) with an equality break on a counter stepped once per iteration
+    cond_true = lp['cond'] is None or fold.fold(lp['cond']) not in (None, 0)
+    if cond_true and body is not None:
+        F = ctx.facts(f)
+        for x in walk(body):
+            if x.get('kind') != 'BreakStmt' or _innermost_loop(x) is not s:
+                continue
+            fs = F.facts_at_ast(x) or frozenset()
+            for (op, a, b) in fs:
+                if op != '==':
+                    continue
+                for (ik, lim) in ((a, b), (b, a)):
+                    steps = [(wk, y) for (wk, y) in ws if wk == ik]
+                    if not steps or any(y.get('opcode') != '++' for (_, y) in steps):
+                        continue
+                    if [wk for (wk, y) in ws if wk == lim or (wk and wk != '?' and not lim.startswith('n:') and _mentions(lim, wk) and wk != ik)]:
+                        continue
+                    in_inc = all(any(y is w[1] for w in ws_inc) for (_, y) in steps)
+                    if in_inc or _step_on_every_iteration(ctx, f, s, steps):
+                        return ('counted-break', '%s++ until == %s' % (ik.split('.')[-1], lim.split('#')[0]), None)
     # D2: for(;;) { n = f(); if (d <= n) break; d -= n; }  with n >= 1
     if lp['cond'] is None and body is not None:
         for x in walk(body):
@@ -257,6 +263,15 @@ def classify(ctx, u, f, s, keys, fold):
                                 if any(op == '==' and set((p, q)) == set((vk, 'n:-1')) for (op, p, q) in fs):
                                     return ('source-read', '%s re-read each iteration, exits on the sentinel and on EOF' % vk.split('#')[0], None)
     return (None, 'no terminating idiom recognised', None)
+
+
+def _innermost_loop(x):
+    for a in ancestors(x):
+        if a.get('kind') in LOOPS:
+            return a
+        if a.get('kind') == 'SwitchStmt':
+            return None         # the break leaves the switch, not a loop
+    return None
 
 
 class _RetObs(object):
